@@ -1154,6 +1154,30 @@ func waitGroupOrders(s *Stage, closer, sender *proc, k string) string {
 	if sender.g.Parent != nil {
 		parent = sender.g.Parent.An
 	}
+	// several go statements, each starting one goroutine counted by the same WaitGroup (`wg.Add(2); go copy(lhs);
+	// go copy(rhs)`): the Add accounts for all of them together
+	if one, isOne := inst.IntConst(); isOne && one == 1 && !sender.g.InLoop && wg != nil {
+		n := int64(0)
+		for _, g := range s.Gos {
+			if g.InLoop || g.Parent != sender.g.Parent || g.An == nil {
+				continue
+			}
+			calls := false
+			for _, p := range g.An.AllPaths() {
+				for i := range p.Steps {
+					if isWgDone(&p.Steps[i]) && len(p.Steps[i].A) > 0 && ir.Same(p.Steps[i].A[0], wg) {
+						calls = true
+					}
+				}
+			}
+			if calls {
+				n++
+			}
+		}
+		if n > 1 {
+			inst = ir.Const(fmt.Sprint(n))
+		}
+	}
 	add, why := addAccounts(parent, wg, sender.g, inst)
 	if why != "" {
 		return why
